@@ -293,6 +293,21 @@ def sql_brace_literal(tree):
     return False
 
 
+def sql_printf_bare_operand(source):
+    """`(<several string pieces>) % value`: the left side of % is not one literal and the right side is a bare value, not a
+    tuple / dict display (the `%s` token survives next to the `?`)"""
+    import libcst as cst
+    import libcst.matchers as m
+    try:
+        mod = cst.parse_module(source)
+    except Exception:
+        return False
+    for n in m.findall(mod, m.BinaryOperation(operator=m.Modulo())):
+        if isinstance(n.left, (cst.ConcatenatedString, cst.BinaryOperation)) and not isinstance(n.right, (cst.Tuple, cst.Dict)):
+            return True
+    return False
+
+
 def sql_removed_assignment(tree):
     """the function that holds the query also assigns a call result to a name nobody reads: the clean-up pass removes the statement"""
     for fn in _walk(tree, ast.FunctionDef, ast.AsyncFunctionDef):
@@ -360,6 +375,7 @@ CLASSES = [
     ("kf_resource_leak_unused_handle", ("fix-file-resource-leak",), lambda t, s, b, a: resource_leak_unused_handle(t)),
     ("kf_sql_format_spec", ("sql-parameterization",), lambda t, s, b, a: sql_format_spec(t)),
     ("kf_sql_brace_literal", ("sql-parameterization",), lambda t, s, b, a: sql_brace_literal(t)),
+    ("kf_sql_printf_bare_operand", ("sql-parameterization",), lambda t, s, b, a: sql_printf_bare_operand(s)),
     ("kf_sql_removed_assignment", ("sql-parameterization",), lambda t, s, b, a: sql_removed_assignment(t)),
     ("kf_order_imports_rebinding", ("order-imports",), lambda t, s, b, a: order_imports_rebinding(t)),
     ("kf_abstractproperty_shadowed_abc", ("fix-deprecated-abstractproperty",), lambda t, s, b, a: abstractproperty_shadowed_abc(t)),
